@@ -146,8 +146,7 @@ class RF24:
             for byte in buf:
                 result.append(self.send(byte, ask_no_ack, force_retry, send_only))
             return result
-        if self._status & 0x10 or self._status & 1:
-            self.flush_tx()
+        self.flush_tx()
         if not send_only and self._status >> 1 & 7 < 6:
             self.flush_rx()
         self.write(buf, ask_no_ack)
